@@ -79,6 +79,8 @@ impl MemStream {
                 w.aborted_ops += 1;
                 let line = format!("IO {} send-fail", hex(self.host.as_bytes()));
                 w.lean.log(&line);
+                let n = w.reqs_this_op;
+                w.lean.log(&format!("NOTE request-cap {}", n));
                 return Err(io::Error::new(io::ErrorKind::Other, "watchdog: too many requests in one operation"));
             }
             w.frames.push((self.host.clone(), frame.clone()));
@@ -165,6 +167,9 @@ impl Read for MemStream {
             if w.faults.timeout_read_at == Some(idx) {
                 let line = format!("IO {} recv-fail", hex(self.host.as_bytes()));
                 w.lean.log(&line);
+                // what was not read yet stays queued on this connection
+                let line = format!("NOTE late-reply {}", hex(self.host.as_bytes()));
+                w.lean.log(&line);
                 return Err(io::Error::new(io::ErrorKind::TimedOut, "injected read time-out (mid-reply)"));
             }
             w.faults.read_chunks.pop_front().unwrap_or(usize::MAX).max(1)
@@ -202,6 +207,8 @@ impl Read for FaultyRecv {
             w.recvs += 1;
             if w.faults.timeout_recv_at == Some(idx) {
                 let line = format!("IO {} recv-fail", hex(self.inner.host.as_bytes()));
+                w.lean.log(&line);
+                let line = format!("NOTE late-reply {}", hex(self.inner.host.as_bytes()));
                 w.lean.log(&line);
                 // the reply is NOT lost: it stays queued and "arrives late"
                 return Err(io::Error::new(io::ErrorKind::TimedOut, "injected read time-out"));
